@@ -901,6 +901,17 @@ def gen_random(ck, rng, tier, sd, lines):
 # --------------------------------------------------------------------------
 # execution
 
+def _sweep_stale():
+    """scratch directories left in /dev/shm by a run that was killed"""
+    try:
+        for f in os.listdir("/dev/shm"):
+            p = os.path.join("/dev/shm", f)
+            if f.startswith("verif-c19-") and time.time() - os.path.getmtime(p) > 3600:
+                shutil.rmtree(p, ignore_errors=True)
+    except OSError:
+        pass
+
+
 def _scratch():
     """/dev/shm when it is there: creating and removing the few files of a trace costs ~20 ms on the
     disk of the sandbox, as much as the run itself"""
@@ -1014,8 +1025,8 @@ def tlc_runs(ck, tier):
 def design_link(kind, where, pred):
     if kind == "timeout":
         return "Progress"
-    if "ovni_ev_size" in where and kind.startswith("asan-heap-buffer-overflow"):
-        return "HeaderReadInBounds"
+    if "ovni_ev_size" in where and kind.startswith("asan-bad"):
+        return "HeaderReadInBounds (size field of a trailing fragment) / CursorInBounds (cursor moved backwards)"
     if kind.startswith("ubsan-signed-integer-overflow") and "ovni_ev_size" in where:
         return "VerdictIsExit0or1 (undefined size arithmetic)"
     if pred and ("loop" in pred or "wild" in pred or "misparse" in pred):
@@ -1029,6 +1040,7 @@ def main(pid, tier):
     ck = core.Check(pid, "exploration", tier)
     bdir = core.build("asan")
     rng = random.Random(core.seed())
+    _sweep_stale()
 
     lines, refuted = tlc_runs(ck, tier)
     ck.notes["current_arithmetic_refuted_invariants"] = refuted
@@ -1169,13 +1181,15 @@ def main(pid, tier):
     ck.notes["model_predicted_misbehaviour"] = {k: {"inputs": pred_all[k], "a_tool_misbehaved": pred_hit[k]}
                                                for k in sorted(pred_all)}
     ck.cov["traces_validated_against_impl"] = clean
+    ck.notes["tree_behaves_like"] = ("current arithmetic (Decoder, Guarded = FALSE)" if any(pred_hit.values())
+                                     else "guarded design (no input of a class predicted to misbehave did)")
 
     # report: one violation per signature; distinct locations first so that the (bounded) list of
     # bundles shows every defect before it shows the same defect through another tool
     order = sorted(groups.items(), key=lambda kv: (kv[1]["best"][1], kv[0]))
     first, later, seen_loc = [], [], set()
     for sig, g in order:
-        loc = (g["kind"], g["where"])
+        loc = (g["kind"], g["where"].split("<")[0])
         (later if loc in seen_loc else first).append((sig, g))
         seen_loc.add(loc)
     table = []
